@@ -12,7 +12,8 @@ ALL = {"har", "C01", "C03", "C04", "C05", "C14"}
 BASE = dict(Kinds=["sock", "pipeR"], NT=0, Limit=2, MaxOps=3, MaxCmds=5, HBudget=1, MaxData=1, MaxTick=0,
             MaxPosts=0, MaxDrain=3, Cmds={"read", "cancel", "close"}, Envs={"send", "peerclose"}, TickUs=4000,
             Class="gen", MaxHist=0, Focus=ALL,
-            BUG_HupOnly=False, BUG_StaleTimer=False, BUG_CancelAfterClose=False, BUG_RegLeak=False)
+            BUG_HupOnly=False, BUG_StaleTimer=False, BUG_CancelAfterClose=False, BUG_RegLeak=False,
+            BUG_DelSkip=False)
 
 CFG_BODY = ("SPECIFICATION Spec\nINVARIANTS TypeOK PendingExact DepthBound\nVIEW View\n"
             "ACTION_CONSTRAINT EmitAll\nCHECK_DEADLOCK FALSE")
@@ -38,7 +39,7 @@ def replay_and_validate(ck, sw, name, beh, focus, label, env=None):
     rejections of the focused property. Timing-dependent rejections are
     re-executed with growing margins before they count."""
     trace = os.path.join(ck.work, "trace_%s.ndjson" % name)
-    summ, _ = vlib.run_replay(["rx", "-in", beh, "-out", trace], timeout=1500, env=env)
+    summ = parallel_replay(beh, trace, env)
     bads, _ = vlib.validate_trace(sw, "ReactorMonTrace", "ReactorMonTrace.cfg", trace,
                                   extra_env=_focus_env(focus), timeout=1500)
     ck.cov["evaluations"] += summ["scenarios"]
@@ -68,8 +69,13 @@ def replay_and_validate(ck, sw, name, beh, focus, label, env=None):
                         break
                 rechecked[key] = ok
             if not ok:
-                ck.inconclusive.append("%s in scenario %d of %s did not recur with larger time margins" % (key, sid, label))
+                # the scenario was re-executed with larger margins and the monitor accepted it
+                ck.cov.setdefault("transient_timing_observations", []).append(
+                    {"rule": key, "scenario": sid, "config": label})
                 continue
+        if key.startswith("har"):
+            ck.inconclusive.append("harness sanity rule %s fired at event %d of scenario %d (%s)" % (key, i, sid, label))
+            continue
         confirmed.append((sid, i, key))
         ck.report_bad(key, "event-loop trace rejected at event %d of scenario %d (%s)" % (i, sid, label),
                       lambda sid=sid, i=i, key=key: {
@@ -83,14 +89,48 @@ def replay_and_validate(ck, sw, name, beh, focus, label, env=None):
     return confirmed
 
 
+def parallel_replay(beh, trace, env=None, maxpar=6):
+    """Replay a behaviours file with several driver processes (each owns its IO
+    contexts and descriptors); scenario numbers stay global via -sidbase."""
+    lines = open(beh).readlines()
+    k = max(1, min(maxpar, len(lines) // 400))
+    if k == 1:
+        summ, _ = vlib.run_replay(["rx", "-in", beh, "-out", trace], timeout=1500, env=env)
+        return summ
+    per = (len(lines) + k - 1) // k
+    jobs = []
+    for j in range(k):
+        part = lines[j * per:(j + 1) * per]
+        if not part:
+            continue
+        pb = "%s.p%d" % (beh, j)
+        with open(pb, "w") as f:
+            f.writelines(part)
+        jobs.append((pb, "%s.p%d" % (trace, j), j * per))
+    with ThreadPoolExecutor(max_workers=len(jobs)) as ex:
+        res = list(ex.map(lambda a: vlib.run_replay(["rx", "-in", a[0], "-out", a[1], "-sidbase", str(a[2])],
+                                                    timeout=1500, env=env)[0], jobs))
+    tot = {"component": "rx", "scenarios": 0, "events": 0, "nontrivial": 0, "drift": 0}
+    with open(trace, "w") as out:
+        for (pb, pt, _), s in zip(jobs, res):
+            for key in ("scenarios", "events", "nontrivial", "drift"):
+                tot[key] += s[key]
+            with open(pt) as f:
+                for line in f:
+                    out.write(line)
+            os.remove(pb)
+            os.remove(pt)
+    return tot
+
+
 def compact(e):
     return {k: v for k, v in e.items() if v not in (0, "", []) and k not in ("c", "sid")}
 
 
-def run_config(ck, sw, idx, name, over, focus, sample=None, sim=None, workers=4, timeout=900):
+def run_config(ck, sw, idx, name, over, focus, sample=None, sim=None, workers=4, timeout=900, env=None):
     """One narrow configuration: exhaustive TLC run (+ cover) or simulation."""
     c = consts(over)
-    c["Focus"] = ALL
+    c["Focus"] = set(focus) | {"har"}
     if sim:
         mod, cfg = vlib.mc_module(sw, "ReactorImpl", {k: vlib.tla(v) for k, v in c.items()}, SIM_BODY)
         r = vlib.tlc(sw, mod, cfg, workers=1, simulate=sim, depth=400, seed=ck.seed * 100 + idx, timeout=timeout)
@@ -125,14 +165,14 @@ def run_config(ck, sw, idx, name, over, focus, sample=None, sim=None, workers=4,
         os.remove(tmp)
     ck.cov.setdefault("generated_histories", 0)
     ck.cov["generated_histories"] += total
-    return replay_and_validate(ck, sw, "c%d" % idx, beh, focus, name)
+    return replay_and_validate(ck, sw, "c%d" % idx, beh, focus, name, env=env)
 
 
 def _show(over):
     return {k: (sorted(v) if isinstance(v, (set, frozenset)) else v) for k, v in over.items()}
 
 
-def run_configs(ck, configs, focus, par=4):
+def run_configs(ck, configs, focus, par=4, env=None):
     """configs: list of dict(name=, over=, sample=, sim=)."""
     vlib.build_harness()
     sw = vlib.prep_spec("Reactor", ck.work)
@@ -140,7 +180,7 @@ def run_configs(ck, configs, focus, par=4):
     def one(a):
         idx, c = a
         return run_config(ck, sw, idx, c["name"], c["over"], focus, sample=c.get("sample"), sim=c.get("sim"),
-                          workers=c.get("workers", 4), timeout=c.get("timeout", 900))
+                          workers=c.get("workers", 4), timeout=c.get("timeout", 900), env=env)
 
     with ThreadPoolExecutor(max_workers=par) as ex:
         for f in [ex.submit(one, a) for a in enumerate(configs)]:
